@@ -422,6 +422,20 @@ func (e *Exec) callModular(fr *Frame, st *State, in ssa.Instruction, fc *FuncCon
 	if i := strings.Index(short, "."); i >= 0 {
 		short = short[i+1:]
 	}
+	// lemma instances requested by the caller's contract for this call site
+	if e.fc != nil && fr.top {
+		for _, cs := range e.fc.Calls {
+			if (cs.Callee == short || cs.Callee == calleeName || cs.Callee == lastSeg(short)) && cs.N == k {
+				cenv := e.funcEnv(fr, st)
+				for n, v := range penv.vars {
+					cenv.vars["callee_"+n] = v
+				}
+				for _, lm := range cs.Lemmas {
+					e.instLemma(cenv, lm, st)
+				}
+			}
+		}
+	}
 	for i, c := range fc.Requires {
 		g := e.evalBool(penv, c.Expr)
 		lbl := c.Label
@@ -468,22 +482,6 @@ func (e *Exec) callModular(fr *Frame, st *State, in ssa.Instruction, fc *FuncCon
 	for _, c := range fc.Ensures {
 		e.S.Assert(sImp(st.reach, e.evalBool(qenv, c.Expr)))
 	}
-	// lemma instances requested by the caller's contract for this call site
-	if e.fc != nil && fr.top {
-		for _, cs := range e.fc.Calls {
-			if (cs.Callee == short || cs.Callee == calleeName) && cs.N == k {
-				cenv := e.funcEnv(fr, st)
-				for n, v := range qenv.vars {
-					if _, ok := cenv.vars["callee."+n]; !ok {
-						cenv.vars["callee_"+n] = v
-					}
-				}
-				for _, lm := range cs.Lemmas {
-					e.instLemma(cenv, lm, st)
-				}
-			}
-		}
-	}
 	switch len(results) {
 	case 0:
 		return vUnit()
@@ -513,8 +511,13 @@ func (e *Exec) havocClause(env *Env, st *State, fc *FuncContract, m string) {
 		fatalf("%s: bad modifies entry %q", fc.Key, m)
 	}
 	baseSrc, fname := m[:dot], m[dot+1:]
+	rootName := baseSrc
+	if i := strings.Index(rootName, "."); i >= 0 {
+		rootName = rootName[:i]
+	}
+	isType := !hasVar(env, rootName) && resolveTypeIn(e.P, env.pkg, baseSrc) != nil
 	// location form?
-	if ex, err := parseExprSafe(baseSrc); err == nil {
+	if ex, err := parseExprSafe(baseSrc); err == nil && !isType {
 		if id, ok := ex.(*ast.Ident); !ok || hasVar(env, id.Name) {
 			base := e.evalExpr(env, ex)
 			if base.T != nil {
